@@ -81,6 +81,36 @@ def cyclic(rules, dflt):
     return any(dfs(n) for n in list(graph))
 
 
+def removal_enforcer(file_rules, defaults, dflt):
+    """an enforcer reading ``file_rules`` from its policy file, with ``defaults`` registered as
+    deprecated-for-removal policies"""
+    import atexit
+    import json
+    import os
+    import shutil
+    import tempfile
+    from oslo_config import cfg
+    from oslo_policy import policy
+    conf = cfg.ConfigOpts()
+    conf([], project='verif', default_config_files=[], default_config_dirs=[])
+    d = tempfile.mkdtemp(prefix='verif_enf_')
+    atexit.register(shutil.rmtree, d, True)
+    main = os.path.join(d, 'policy.json')
+    with open(main, 'w') as f:
+        json.dump(file_rules, f)
+    kw = {}
+    if dflt is not None and dflt[0] == 'name':
+        kw['default_rule'] = dflt[1]
+    e = policy.Enforcer(conf, policy_file=main, **kw)
+    if dflt is not None and dflt[0] == 'opt':
+        conf.set_override('policy_default_rule', dflt[1], group='oslo_policy')
+        e.default_rule = None
+        e = policy.Enforcer(conf, policy_file=main)
+    for n, text in defaults:
+        e.register_default(policy.RuleDefault(n, text, deprecated_for_removal=True, deprecated_reason='going away', deprecated_since='N'))
+    return e
+
+
 def run(ctx):
     q = ctx.quick
     res = tlc.run('MC_Default', MC_CFG % (0 if q else 1), coverage=not q, timeout=3000)
@@ -109,6 +139,25 @@ def run(ctx):
                     set_debug(rng.random() < 0.25)
                     cases.append(ec.enforce_case(rules, {'by': 'name', 'name': query, 'doraise': dr}, {}, {'roles': roles},
                                                  dflt=dflt, want='c03', via=via))
+    # the policy_default_rule option set the way a service sets it (one opts.set_defaults call that also names
+    # the policy file)
+    for dflt in (('opt', 'd'), ('opt', 'zz'), ('opt', None), ('opt', 'n2')):
+        for rules in ([('d', ev.T), ('default', ev.F)], [('d', ev.F), ('default', ev.T)], [('n2', R), ('default', ev.T)], [('default', ev.T)]):
+            for query in ('n1', 'd', 'zz', 'n2'):
+                for roles in ([], ['r']):
+                    cases.append(ec.enforce_case(rules, {'by': 'name', 'name': query, 'doraise': len(roles)}, {}, {'roles': roles},
+                                                 dflt=dflt, want='c03', via='set_defaults'))
+    # a registered default is a definition whatever its flags say: one marked deprecated_for_removal (and not
+    # overridden in any file) still decides its own name - the default rule does not
+    for dflt_body, own in ((ev.T, ev.F), (ev.F, ev.T), (ev.T, R), (ev.F, R)):
+        for dflt in (('opt', 'd'), None, ('name', 'd')):
+            dname = 'default' if dflt is None else 'd'
+            for query in ('n1', 'zz', dname):
+                for roles in ([], ['r']):
+                    e = removal_enforcer({dname: ev.rule_text(dflt_body)}, [('n1', ev.rule_text(own))], dflt)
+                    cases.append(ec.enforce_case([(dname, dflt_body), ('n1', own)], {'by': 'name', 'name': query}, {}, {'roles': roles},
+                                                 dflt=dflt, want='c03', enforcer=e,
+                                                 extra={'_via': 'policy file defining %s only; n1 is a registered default marked deprecated_for_removal' % dname}))
     # sessions: the rule store of one long-lived enforcer is changed through set_rules
     # (replace or merge) and clear between calls; a queried name is decided by the store
     # as it is at the time of the call (spec/Trace_Store.tla)
